@@ -925,7 +925,8 @@ def find_replace(
         range_start = min(r[0] for r in ranges)
         range_end = max(r[1] for r in ranges)
         replacement_range = core.Range(range_start, range_end)
-        if isinstance(combined_match[0], ast.GeneratorExp):
+        if replace.strip() and isinstance(combined_match[0], ast.GeneratorExp):
+            # (Only when something is put in its place: a search reports the whole expression)
             replacement_range = _without_call_parentheses(source, replacement_range)
 
         template_replacement = core.format_template(replace, combined_match, **callables)
